@@ -82,7 +82,15 @@ pub fn gen_strip(rng: &mut Rng, enc: &EncOpts) -> HStrip {
         0 => HStrip::Safe,
         1 => HStrip::All,
         2 => HStrip::Strip(pick(rng)),
-        3 => HStrip::Keep(pick(rng)),
+        3 => {
+            // a third of the keep lists also name everything the manual's word "display" stands for
+            let mut v = pick(rng);
+            if rng.chance(1, 3) {
+                v.extend([*b"cICP", *b"iCCP", *b"sRGB", *b"pHYs", *b"acTL", *b"fcTL", *b"fdAT"]);
+                v.sort(); v.dedup();
+            }
+            HStrip::Keep(v)
+        }
         _ => HStrip::None,
     }
 }
